@@ -2,6 +2,7 @@ import RsModel.Model.Tree
 import RsModel.Props.C01
 import RsModel.Lemmas.Replay
 import RsModel.Lemmas.PosTree
+import RsModel.Lemmas.ReplayNames
 /-!
 # C10 — CachedSource is transparent for every call history
 -/
@@ -117,5 +118,42 @@ theorem c10_replay_attribution (id : Nat) (inner : Src) (σ : Store)
     refine ⟨by simpa [streamSM] using this, ?_⟩
     rw [htext]
     exact streamSM_text inner.src sm true (textOK_of_ascii _ ha hl)
+
+
+/-- **… and the same file names and names** (columns = true): resolved through the announcements of each stream — the replay
+announces the `sources` / `names` of the stored map, the first stream announced them itself — every byte of the replay resolves to
+the same file name, original line, original column and name as in the first stream. -/
+theorem c10_replay_names (id : Nat) (inner : Src) (σ : Store)
+    (hw : inner.WF) (hp : inner.PosHyp true) (hi : inner.IdxHyp) (hn : inner.ids.Nodup) (hs : StoreHyp true σ inner.cachedNodes)
+    (hsi : StoreIdx σ inner.cachedNodes)
+    (ha : IsAscii inner.src) (hl : inner.src.length ≤ USIZE_MAX)
+    (hMN : MappedNE (inner.stream ⟨true, false⟩ σ).1.evs) (hsmall : ∀ m ∈ chunkMs (inner.stream ⟨true, false⟩ σ).1.evs, m.small)
+    (hcold : σ.get? (id, ⟨true, false⟩) = none) (hfresh : id ∉ inner.ids)
+    (sm : SMap) (hm : mapOfEvs true (inner.stream ⟨true, false⟩ σ).1.evs = some sm) :
+    let first := (Src.cached id inner).stream ⟨true, false⟩ σ
+    let second := (Src.cached id inner).stream ⟨true, false⟩ first.2
+    (attrN emptyS emptyN second.1.evs).map (Option.map RLoc.toN) = (attrN emptyS emptyN first.1.evs).map (Option.map RLoc.toN) := by
+  intro first second
+  have hpos := Src.stream_posOK inner true σ hw hp hn hs
+  have htok := Src.stream_tok inner true σ
+  have htl := Src.stream_tl inner true σ
+  have htext := Src.stream_text inner true σ hw
+  have hdecl := Src.stream_declOK inner ⟨true, false⟩ σ hi hn hsi
+  have hfirst : first = ((inner.stream ⟨true, false⟩ σ).1,
+      (inner.stream ⟨true, false⟩ σ).2.insertNew (id, ⟨true, false⟩) (mapOfEvs true (inner.stream ⟨true, false⟩ σ).1.evs)) := by
+    show (Src.cached id inner).stream ⟨true, false⟩ σ = _
+    simp only [Src.stream, hcold]
+  have hstill : (inner.stream ⟨true, false⟩ σ).2.get? (id, ⟨true, false⟩) = none := by
+    rw [Src.stream_store_other inner _ σ (id, ⟨true, false⟩) hfresh]; exact hcold
+  have hget : first.2.get? (id, ⟨true, false⟩) = some (mapOfEvs true (inner.stream ⟨true, false⟩ σ).1.evs) := by
+    rw [hfirst]; exact get_insertNew_self _ _ _ hstill
+  have hsecond : second = (Src.cached id inner).stream ⟨true, false⟩ first.2 := rfl
+  rw [hsecond]
+  simp only [Src.stream, hget]
+  rw [hfirst]
+  simp only [hm]
+  have := replay_names (inner.stream ⟨true, false⟩ σ).1 hpos htok htl hMN (by rw [htext]; exact ha) (by rw [htext]; exact hl) hsmall hdecl sm hm
+  rw [htext] at this
+  simpa [streamSM] using this
 
 end Rs
